@@ -34,7 +34,7 @@ SPEC = {
     "min_evaluations": {"quick": 300, "thorough": 3000},
     "must_reach": ["teal_identical_3way", "markers_attributed", "keys_ok", "entries_point_into_files", "json_roundtrip_ok", "independent_vlq_ok", "annotated_ok",
                    "multi_module", "large_delta", "router_trees", "synthetic_maps_ok", "assembled_trees", "repeated_constants_checked"],
-    "shard_timeout": {"quick": 900, "thorough": 7200},
+    "shard_timeout": {"quick": 2400, "thorough": 14400},
 }
 
 B64 = "ABCDEFGHIJKLMNOPQRSTUVWXYZabcdefghijklmnopqrstuvwxyz0123456789+/"
